@@ -24,6 +24,7 @@
  * SOFTWARE.
  */
 
+#include <limits.h>
 #include <stdbool.h>
 #include <stdio.h>
 #include <stdlib.h>
@@ -278,19 +279,56 @@ enum websocket_callback_return binary_frame_received_comp(bool is_compressed, st
 	}
 }
 
-int websocket_compress(const struct websocket *s, uint8_t *dest, uint8_t *src, size_t length)
+/*
+ * Number of bytes websocket_compress_bounded() needs at most to compress a message
+ * of length bytes.
+ *
+ * deflateBound() covers the deflate blocks of length bytes of input. A sync or full
+ * flush appends an empty stored block behind them: three header bits, up to seven
+ * bits up to the next byte boundary and the four bytes 00 00 ff ff, so at most
+ * FLUSH_MARKER_MAX bytes (zlib.h asks for "avail_out greater than six" for the same
+ * reason). One spare byte is added, because only a flush that leaves room in the
+ * output buffer (avail_out != 0) is known to be complete.
+ */
+#define FLUSH_MARKER_MAX 6
+#define FLUSH_SPARE 1
+
+size_t websocket_compress_bound(const struct websocket *s, size_t length)
 {
 	if (s->extension_compression.compression_level == 0) {
+		return length;
+	}
+	return deflateBound(*(s->extension_compression.strm_comp), length) + FLUSH_MARKER_MAX + FLUSH_SPARE;
+}
+
+/*
+ * Compresses one message into dest, which has room for dest_size bytes, and removes
+ * the tail 00 00 ff ff (RFC 7692, 7.2.1). Returns the number of bytes to send or -1.
+ *
+ * -1 is also returned if the compressed message did not fit into dest completely. In
+ * that case nothing of this message must be sent. The part zlib could not deliver is
+ * discarded by resetting the deflate stream, otherwise it would be prepended to the
+ * next message. A reset stream starts a new deflate block without references to
+ * earlier data, so the peer can still decode the messages that follow.
+ */
+int websocket_compress_bounded(const struct websocket *s, uint8_t *dest, size_t dest_size, uint8_t *src, size_t length)
+{
+	if (s->extension_compression.compression_level == 0) {
+		if (dest_size < length) {
+			log_err("Compress: destination buffer too small!");
+			return -1;
+		}
 		memcpy(dest, src, length);
 		return length;
 	}
 	int ret;
 	z_stream *strm = *(s->extension_compression.strm_comp);
 	unsigned int have;
+	unsigned int out_size = (dest_size > UINT_MAX) ? UINT_MAX : (unsigned int)dest_size;
 
 	strm->avail_in = length;
 	strm->next_in = src;
-	strm->avail_out = length * 2;
+	strm->avail_out = out_size;
 	strm->next_out = dest;
 	if (s->extension_compression.server_no_context_takeover) {
 		ret = deflate(strm, Z_FULL_FLUSH);
@@ -300,19 +338,41 @@ int websocket_compress(const struct websocket *s, uint8_t *dest, uint8_t *src, s
 	if (ret < Z_OK) {
 		log_err("deflate error: ");
 		print_converted_ret(ret);
-		deflateEnd(strm);
+		/*
+		 * Z_BUF_ERROR: deflate() had nothing to do (no input since the last flush, or
+		 * no room for output) and did not change the stream, which stays usable.
+		 */
+		if (ret != Z_BUF_ERROR) {
+			deflateEnd(strm);
+		}
 		return -1;
 	}
-	have = length * 2 - strm->avail_out;
-	if (have < 4) log_err("Deflate not enough space!");
+	have = out_size - strm->avail_out;
+	if ((strm->avail_out == 0) || (have < 4)) {
+		log_err("Deflate not enough space!");
+		deflateReset(strm);
+		return -1;
+	}
 
-	if (dest[have - 1] != 0xff) log_err("Error remove tail deflate!");
-	if (dest[have - 2] != 0xff) log_err("Error remove tail deflate!");
-	if (dest[have - 3] != 0x00) log_err("Error remove tail deflate!");
-	if (dest[have - 4] != 0x00) log_err("Error remove tail deflate!");
+	if ((dest[have - 1] != 0xff) || (dest[have - 2] != 0xff) || (dest[have - 3] != 0x00) || (dest[have - 4] != 0x00)) {
+		log_err("Error remove tail deflate!");
+		deflateReset(strm);
+		return -1;
+	}
 	have -= 4;
 	return have;
 }
+
+/*
+ * Same as websocket_compress_bounded() for a destination buffer of length * 2 bytes.
+ * That is not enough for every message (see websocket_compress_bound()); -1 is
+ * returned if the compressed message does not fit.
+ */
+int websocket_compress(const struct websocket *s, uint8_t *dest, uint8_t *src, size_t length)
+{
+	return websocket_compress_bounded(s, dest, length * 2, src, length);
+}
+
 void alloc_compression(struct websocket *ws)
 {
 	if (ws->extension_compression.compression_level == 0) return;
